@@ -207,6 +207,19 @@ fn job_result(kind: &str, src: &str, path: &str) -> String {
             Ok((t, d)) => format!("ok {} {}", t.text(), canon_defines(&d, true).join("|")),
             Err(e) => format!("err {}", canon_err(&e)),
         },
+        // file entry points: src is a file name -- absolute for "libf" (made so when the job is read), relative for "svf" / "ppf"
+        "libf" => match parse_lib(src, &defs, &inc, false, false) {
+            Ok((t, d)) => format!("ok {} {}", tree_line((&t).into_iter().event()), canon_defines(&d, true).join("|")),
+            Err(e) => format!("err {}", canon_err(&e)),
+        },
+        "svf" => match parse_sv(src, &defs, &inc, false, false) {
+            Ok((t, d)) => format!("ok {} {}", tree_line((&t).into_iter().event()), canon_defines(&d, true).join("|")),
+            Err(e) => format!("err {}", canon_err(&e)),
+        },
+        "ppf" => match preprocess(src, &defs, &inc, false, false) {
+            Ok((t, d)) => format!("ok {} {}", t.text(), canon_defines(&d, true).join("|")),
+            Err(e) => format!("err {}", canon_err(&e)),
+        },
         "lib" => match parse_lib_str(src, path, &defs, &inc, false, false) {
             Ok((t, d)) => format!("ok {} {}", tree_line((&t).into_iter().event()), canon_defines(&d, true).join("|")),
             Err(e) => format!("err {}", canon_err(&e)),
@@ -241,7 +254,14 @@ fn run_threads(c: &Case, sandbox_root: &Path, o: &mut String) {
                 }
                 std::fs::write(&p, unhex(&l[2])).unwrap();
             }
-            "job" => jobs.push((l[1].clone(), unhex_str(&l[2]))),
+            "job" => {
+                let src = unhex_str(&l[2]);
+                if l[1].starts_with("libf") {
+                    jobs.push((l[1].clone(), sb.join(src).to_string_lossy().to_string()));
+                } else {
+                    jobs.push((l[1].clone(), src));
+                }
+            }
             "threads" => {
                 let n: usize = l[1].parse().unwrap();
                 let rounds: usize = l[2].parse().unwrap();
